@@ -300,6 +300,26 @@ class Site:
                     nm = rename.get(tg.id, tg.id)
                     uses = sum(1 for r in rest for n in ast.walk(r) if isinstance(n, ast.Name) and n.id == tg.id and isinstance(n.ctx, ast.Load))
                     if any(isinstance(x, ast.Call) for x in ast.walk(v)) and uses > 1:
+                        # evaluate once, at the first use: `(nm := v)` there, `nm` afterwards -- when the uses are in one
+                        # returned expression whose operands are evaluated left to right
+                        if len(rest) == 1 and isinstance(rest[0], ast.Return) and rest[0].value is not None and not any(
+                                isinstance(x, (ast.IfExp, ast.Lambda, ast.ListComp, ast.SetComp, ast.DictComp, ast.GeneratorExp, ast.NamedExpr))
+                                for x in ast.walk(rest[0].value)):
+                            body_e = L(rest[0].value)
+                            state = {"first": True}
+
+                            class W(ast.NodeTransformer):
+                                def visit_Name(me, n):  # noqa: N805
+                                    if n.id == tg.id and isinstance(n.ctx, ast.Load):
+                                        if state["first"]:
+                                            state["first"] = False
+                                            return ast.NamedExpr(ast.Name(nm, ast.Store()), copy.deepcopy(v))
+                                        return ast.Name(nm, ast.Load())
+                                    return n
+
+                                def generic_visit(me, node):  # noqa: N805  (fields in source order = evaluation order here)
+                                    return super().generic_visit(node)
+                            return W().visit(body_e)
                         raise CannotInline("let with a call used more than once")
                     if any(isinstance(n, ast.Name) and n.id == tg.id and isinstance(n.ctx, ast.Store) for r in rest for n in ast.walk(r)):
                         raise CannotInline("let rebound")
@@ -410,13 +430,42 @@ class Site:
         return out
 
 
+def _yields_end_loop_bodies(fn: ast.FunctionDef) -> bool:
+    """every `yield` statement of the generator is the last statement of the body of a loop"""
+    ok = [True]
+    n_y = [0]
+
+    def walk(body: list[ast.stmt], is_loop_body: bool) -> None:
+        for k, st in enumerate(body):
+            if isinstance(st, ast.Expr) and isinstance(st.value, ast.Yield):
+                n_y[0] += 1
+                if not (is_loop_body and k == len(body) - 1):
+                    ok[0] = False
+            elif isinstance(st, (ast.For, ast.While)):
+                walk(st.body, True)
+                walk(st.orelse, False)
+            elif isinstance(st, (ast.FunctionDef, ast.ClassDef)):
+                continue
+            else:
+                for fld in ("body", "orelse", "finalbody"):
+                    b = getattr(st, fld, None)
+                    if isinstance(b, list) and b and isinstance(b[0], ast.stmt):
+                        walk(b, False)
+                for h in getattr(st, "handlers", []) or []:
+                    walk(h.body, False)
+    walk(_body(fn), False)
+    return ok[0] and n_y[0] > 0
+
+
 def inline_generator_loop(site: "Site", loop: ast.For) -> list[ast.stmt]:
     if loop.orelse:
         raise CannotInline("for/else over a generator")
     for n in _own_walk_stmts(loop.body):
         if isinstance(n, (ast.Break, ast.Return)):
             raise CannotInline("loop body leaves the loop early")
-        if isinstance(n, ast.Continue):
+        if isinstance(n, ast.Continue) and not _yields_end_loop_bodies(site.callee):
+            # `continue` = "next element": at the place of a `yield` that is the last statement of a loop body of the
+            # generator, continuing that loop is exactly this
             raise CannotInline("continue in the loop body")
     env, rename, pre = site.bind()
     sub = _Subst(env, rename)
@@ -716,17 +765,19 @@ def _noneness_at_end(block: list[ast.stmt], x: str) -> bool | None:
         return None
     if isinstance(last, ast.If) and last.orelse:
         a, b = _noneness_at_end(last.body, x), _noneness_at_end(last.orelse, x)
-        return a if a is not None and a == b else None
+        if a is None or b is None:
+            return None
+        return a if a == b else "mixed"      # decided in every leaf, differently
     return None
 
 
 def _append_at_end(block: list[ast.stmt], x: str, when_none: list[ast.stmt], otherwise: list[ast.stmt]) -> None:
     last = block[-1]
-    if isinstance(last, ast.If) and last.orelse and not (isinstance(last, ast.Assign)):
+    if isinstance(last, ast.If) and last.orelse:
         _append_at_end(last.body, x, when_none, otherwise)
         _append_at_end(last.orelse, x, when_none, otherwise)
         return
-    block.extend(copy.deepcopy(when_none if _noneness_at_end(block, x) else otherwise))
+    block.extend(copy.deepcopy(when_none if _noneness_at_end(block, x) is True else otherwise))
 
 
 def _break_sites(body: list[ast.stmt]) -> list[tuple[list, int]]:
@@ -788,11 +839,14 @@ def _thread_sentinels(body: list[ast.stmt]) -> bool:
                                   if not isinstance(z, ast.Return))
                 sites = _break_sites(s1.body)
                 e_ = _noneness_at_end(s1.orelse, x)
-                if movable and sites and e_ is not None and all(_noneness_at_end(blk[:k], x) is not None for blk, k in sites):
+                if movable and sites and e_ in (True, False) and all(_noneness_at_end(blk[:k], x) in (True, False) for blk, k in sites):
                     for blk, k in sorted(sites, key=lambda bk: -bk[1]):
-                        ins = copy.deepcopy(when_none if _noneness_at_end(blk[:k], x) else otherwise)
-                        blk[k:k] = ins
-                    s1.orelse.extend(copy.deepcopy(when_none if e_ else otherwise))
+                        ins = copy.deepcopy(when_none if _noneness_at_end(blk[:k], x) is True else otherwise)
+                        if ins and isinstance(ins[-1], (ast.Return, ast.Raise)):
+                            blk[k:k + 1] = ins        # the `break` behind it would be unreachable
+                        else:
+                            blk[k:k] = ins
+                    s1.orelse.extend(copy.deepcopy(when_none if e_ is True else otherwise))
                     del body[i + 1]
                     changed = done = True
         if not done:
@@ -806,6 +860,86 @@ def _thread_sentinels(body: list[ast.stmt]) -> bool:
                 changed |= _thread_sentinels(b)
         for h in getattr(st, "handlers", []) or []:
             changed |= _thread_sentinels(h.body)
+    return changed
+
+
+def _unfold_comprehension_loops(fn: ast.FunctionDef) -> bool:
+    """`for x in [E(y) for y in S if c]: B`  ->  `for y in S: if c: x = E(y); B`  (also when the list is first stored in a
+    local that is used only as this loop's iterable)."""
+    changed = False
+    counts: dict[str, int] = {}
+    for n in ast.walk(fn):
+        if isinstance(n, ast.Name):
+            counts[n.id] = counts.get(n.id, 0) + 1
+
+    def block(body: list[ast.stmt]) -> None:
+        nonlocal changed
+        i = 0
+        while i < len(body):
+            st = body[i]
+            # for x in (A if c else B): BODY   ->   if c: for x in A: BODY   else: for x in B: BODY
+            if isinstance(st, ast.For) and not st.orelse and isinstance(st.iter, ast.IfExp) \
+                    and sum(1 for _ in ast.walk(st)) < 400:
+                fa = ast.For(copy.deepcopy(st.target), st.iter.body, copy.deepcopy(st.body), [])
+                fb = ast.For(copy.deepcopy(st.target), st.iter.orelse, copy.deepcopy(st.body), [])
+                for x_ in (fa, fb):
+                    ast.copy_location(x_, st)
+                new_if = ast.If(st.iter.test, [fa], [fb])
+                ast.copy_location(new_if, st)
+                body[i] = st = new_if
+                changed = True
+            # a loop over an empty literal does nothing
+            if isinstance(st, ast.If):
+                for fld in ("body", "orelse"):
+                    blk = getattr(st, fld)
+                    for k_, x_ in enumerate(list(blk)):
+                        if isinstance(x_, ast.For) and not x_.orelse and isinstance(x_.iter, (ast.List, ast.Tuple)) and not x_.iter.elts:
+                            blk[k_] = ast.copy_location(ast.Pass(), x_)
+                            changed = True
+                if not st.orelse or all(isinstance(z, ast.Pass) for z in st.orelse):
+                    st.orelse = []
+                if st.body and all(isinstance(z, ast.Pass) for z in st.body) and st.orelse:
+                    st.test = ast.copy_location(ast.UnaryOp(ast.Not(), st.test), st.test)
+                    st.body, st.orelse = st.orelse, []
+            if isinstance(st, ast.For) and not st.orelse and isinstance(st.target, ast.Name):
+                comp = st.iter if isinstance(st.iter, (ast.ListComp, ast.GeneratorExp)) else None
+                drop = None
+                if comp is None and isinstance(st.iter, ast.Name) and i > 0 and counts.get(st.iter.id) == 2:
+                    prev = body[i - 1]
+                    if isinstance(prev, ast.Assign) and len(prev.targets) == 1 and isinstance(prev.targets[0], ast.Name) \
+                            and prev.targets[0].id == st.iter.id and isinstance(prev.value, (ast.ListComp, ast.GeneratorExp)):
+                        comp, drop = prev.value, i - 1
+                if comp is not None and len(comp.generators) == 1 and not comp.generators[0].is_async:
+                    g = comp.generators[0]
+                    tn = [x.id for x in ast.walk(g.target) if isinstance(x, ast.Name)]
+                    inside = sum(1 for x in ast.walk(comp) if isinstance(x, ast.Name) and x.id in tn)
+                    free = all(counts.get(t_, 0) == sum(1 for x in ast.walk(comp) if isinstance(x, ast.Name) and x.id == t_) for t_ in tn)
+                    if free and inside:
+                        inner: list[ast.stmt] = [ast.Assign([ast.Name(st.target.id, ast.Store())], comp.elt)] + st.body
+                        for c in reversed(g.ifs):
+                            inner = [ast.If(c, inner, [])]
+                        new = ast.For(g.target, g.iter, inner, [])
+                        ast.copy_location(new, st)
+                        for x in ast.walk(new):
+                            if not hasattr(x, "lineno"):
+                                ast.copy_location(x, st)
+                        body[i] = new
+                        if drop is not None:
+                            del body[drop]
+                            i -= 1
+                        changed = True
+                        st = new
+            if not isinstance(st, (ast.FunctionDef, ast.ClassDef)):
+                for fld in ("body", "orelse", "finalbody"):
+                    b = getattr(st, fld, None)
+                    if isinstance(b, list) and b and isinstance(b[0], ast.stmt):
+                        block(b)
+                for h in getattr(st, "handlers", []) or []:
+                    block(h.body)
+            i += 1
+    block(fn.body)
+    if changed:
+        ast.fix_missing_locations(fn)
     return changed
 
 
@@ -833,6 +967,9 @@ def apply(repo) -> dict:
             break
         repo.reindex()
     normalise_calls(repo)
+    for f in list(repo.functions.values()):
+        if any(k.split(" -> ")[1].split(" [")[0] == f.key for k in report["inlined"]):
+            _unfold_comprehension_loops(f.node)
     for f in list(repo.functions.values()):
         _collect_nonnull(f.node)
         if _thread_sentinels(f.node.body):
